@@ -6144,6 +6144,10 @@ static int convert_from_object_fficallback(char *result,
                in this branch because ctype->ct_size == sizeof(ffi_arg) for
                pointers---except on some architectures like x32 (issue #372).
              */
+            /* do a first conversion only to detect errors: a rejected
+               value must leave '*result' (the error value) alone */
+            if (convert_from_object(result, ctype, pyobj) < 0)
+                return -1;
             memset(result, 0, sizeof(ffi_arg));
 #ifdef WORDS_BIGENDIAN
             result += (sizeof(ffi_arg) - ctype->ct_size);
